@@ -78,7 +78,7 @@ def gen_cases(tier, rng):
     """returns list of (group, line, meta) ; meta = list of component tuples ('U',n,v)..."""
     thorough = tier == 'thorough'
     cases = []
-    nr = 3000 if thorough else 400
+    nr = 30000 if thorough else 400
 
     def single(kind, nb, v):
         tok = '%s%d:%s' % (kind, nb, hx(v))
@@ -142,7 +142,7 @@ def gen_cases(tier, rng):
     # buffer scripts: no leading reset, crossing the internal buffer and several growth steps
     cases.append(('B', 'N', None))
     acc = []
-    for i in range(600 if thorough else 150):
+    for i in range(6000 if thorough else 150):
         r = rng.below(20)
         if r == 0:
             cases.append(('B', 'R', []))
@@ -252,6 +252,13 @@ def property_checks(pid, cases, impl_lines):
                     bad.append(('one encoded key is a proper prefix of another', {'a': a[2], 'b': b[2], 'enc_a': a[1].hex(), 'enc_b': b[1].hex()}))
                 if len(bad) > 5:
                     return bad
+            # the other direction of "equal encodings iff equal normalised components"
+            byval = sorted(items, key=lambda x: x[0])
+            for a, b in zip(byval, byval[1:]):
+                if a[0] == b[0] and a[1] != b[1]:
+                    bad.append(('equal normalised components encode differently', {'a': a[2], 'b': b[2], 'enc_a': a[1].hex(), 'enc_b': b[1].hex()}))
+                    if len(bad) > 5:
+                        return bad
             for it in items:
                 for c in it[3]:
                     if c[0] == 'T' and len(it[3]) == 1 and len(it[1]) > MAXLEN + 3:
@@ -296,7 +303,7 @@ def check(pid, tier, replay=None):
         'unsigned encode/decode overloads, encode_text, buffer management: hand model tied by the correspondence run only',
     ]
     gen = ['enc', 'float'] if pid in ('C11', 'C12') else []
-    proof_stage(res, gen, [PROPS[pid]], pid)
+    proof_stage(res, gen, [PROPS[pid]] + (['Properties/Properties_C11b.v'] if pid == 'C11' else []), pid)
     res.coverage['trusted_base'] = TRUSTED_COMMON + [
         'translator tools/cxx2v.py + clang 14 JSON AST (signed encode/decode value expressions, float encode/decode)',
         'extraction: ExtrOcamlBasic only; OCaml 4.13.1; drivers ocaml/zutil.ml, ocaml/enc_run.ml',
